@@ -288,17 +288,36 @@ func (a *Operator) useHexEscapes(input string) string {
 // applied to subexpressions, e.g., `...(?m:...)...`
 func (o *Operator) dontUseFlagsForMetaCharacters(input string) string {
 	result := input
+	// An escaped parenthesis followed by text that looks like flags is a
+	// literal, not a flag group: skip matches whose parenthesis is escaped.
 	flagsStartRegexp := regexp.MustCompile(`\(\?[-misU]+\)`)
-	result = flagsStartRegexp.ReplaceAllLiteralString(result, "")
-
-	flagGroupStartRegexp := regexp.MustCompile(`\(\?[-misU]+:`)
-	for {
-		location := flagGroupStartRegexp.FindStringIndex(result)
-		if len(location) > 0 {
-			result = o.removeGroup(result, location[0], location[1], false)
-		} else {
+	for offset := 0; offset < len(result); {
+		location := flagsStartRegexp.FindStringIndex(result[offset:])
+		if len(location) == 0 {
 			break
 		}
+		start, end := offset+location[0], offset+location[1]
+		if utils.IsEscaped(result, start) {
+			offset = end
+			continue
+		}
+		result = result[:start] + result[end:]
+		offset = start
+	}
+
+	flagGroupStartRegexp := regexp.MustCompile(`\(\?[-misU]+:`)
+	for offset := 0; offset < len(result); {
+		location := flagGroupStartRegexp.FindStringIndex(result[offset:])
+		if len(location) == 0 {
+			break
+		}
+		start, end := offset+location[0], offset+location[1]
+		if utils.IsEscaped(result, start) {
+			offset = end
+			continue
+		}
+		result = o.removeGroup(result, start, end, false)
+		offset = start
 	}
 	return result
 }
